@@ -57,8 +57,7 @@ theorem unary_exact (op : UOp) (y : Int) (prec : Nat) : unaryOp op y prec = exac
 /-- the `^x` rule for an unsigned type of `w` bits yields the `w`-bit complement `2^w - 1 - x` -/
 theorem unary_not_unsigned (w : Nat) (x : Int) (hw : 0 < w) (hx : 0 ≤ x ∧ x < 2 ^ w) :
     unaryOp .not x w = 2 ^ w - 1 - x := by
-  rw [unary_exact_lem]
-  unfold exactUn
+  rw [unary_exact_lem, exactUn_not]
   rw [if_neg (by omega)]
   have e : -x - 1 = (2 ^ w - 1 - x) + (-1) * 2 ^ w := by omega
   rw [e, Int.add_mul_emod_self_right]
@@ -117,7 +116,7 @@ theorem overflow_iff (word : Nat) (hw : word = 4 ∨ word = 8) (k : Kind) (hk : 
   have hr := representable_iff_range word hw (exactBin op x y) k
   by_cases hd : (op.isDiv && decide (y = 0)) = true
   · have hd' : op.isDiv = true ∧ y = 0 := by simpa using hd
-    simp [hd, hd']
+    simp [hd']
   · have hd' : ¬(op.isDiv = true ∧ y = 0) := by simpa using hd
     simp only [hd, hk, Bool.true_and, Bool.false_eq_true, if_false]
     by_cases hrep : representableConst word (exactBin op x y) k = true
@@ -128,10 +127,10 @@ theorem overflow_iff (word : Nat) (hw : word = 4 ∨ word = 8) (k : Kind) (hk : 
       · intro e; exact e.1.symm
     · have hn : ¬ kindRange word k (exactBin op x y) := fun e => hrep (hr.mpr e)
       simp [hrep, hd', hn]
-      intro v e _; subst e; exact hn
+      try (intro v e _; subst e; exact hn)
 
 /-- the pinned code: same statement away from `MinInt64 / -1` -/
-theorem overflow_iff_partial (word : Nat) (hw : word = 4 ∨ word = 8) (k : Kind) (hk : k.typed = true) (op : BOp) (x y : Int)
+theorem overflow_iff_partial (word : Nat) (k : Kind) (op : BOp) (x y : Int)
     (h : ¬(op = .quo ∧ x = -(2:Int)^63 ∧ y = -1)) :
     checkBinary true word k op x y = checkBinary false word k op x y := by
   unfold checkBinary
@@ -144,7 +143,7 @@ theorem checkBinary_accepts_unrepresentable_quo_minint :
     ¬ kindRange 4 .int64 (exactBin .quo (-(2:Int)^63) (-1)) := by
   constructor
   · decide
-  · decide
+  · show ¬ inRange ⟨64, true⟩ (exactBin .quo (-(2:Int)^63) (-1)); decide
 
 theorem overflow_iff_shift (word : Nat) (hw : word = 4 ∨ word = 8) (k : Kind) (hk : k.typed = true) (op : SOp) (x s : Int)
     (hs : 0 ≤ s ∧ s ≤ shiftBound) :
@@ -165,7 +164,7 @@ theorem overflow_iff_shift (word : Nat) (hw : word = 4 ∨ word = 8) (k : Kind) 
     · intro e; exact e.1.symm
   · have hn : ¬ kindRange word k (exactShift op x s.toNat) := fun e => hrep (hr.mpr e)
     simp [hrep, hn]
-    intro v e; subst e; exact hn
+    try (intro v e; subst e; exact hn)
 
 /-- counts outside `[0, 1074]` are rejected as shift errors -/
 theorem shift_count_rejected (word : Nat) (k : Kind) (op : SOp) (x s : Int) (hs : s < 0 ∨ s > shiftBound) :
@@ -197,7 +196,7 @@ theorem overflow_iff_unary (word : Nat) (hw : word = 4 ∨ word = 8) (k : Kind) 
   · have hn : ¬ kindRange word k (exactUn op x prec) := fun e => hrep (hr.mpr e)
     simp [prec] at hrep hn ⊢
     simp [hrep, hn]
-    intro v e; subst e; exact hn
+    try (intro v e; subst e; exact hn)
 
 /-- constant conversion `T(x)` is accepted exactly when `x` is in T's range, and keeps the value -/
 theorem convert_exact (word : Nat) (hw : word = 4 ∨ word = 8) (k : Kind) (x : Int) :
@@ -224,11 +223,11 @@ theorem declBinTyped_ok_iff (word : Nat) (hw : word = 4 ∨ word = 8) (k : Kind)
   · have ex : checkConvert word k x = .ok x := (hcx.1 x).mpr ⟨rfl, hx⟩
     by_cases hy : kindRange word k y
     · have ey : checkConvert word k y = .ok y := (hcy.1 y).mpr ⟨rfl, hy⟩
-      simp only [ex, ey, Verdict.bind, hb, hx, hy, true_and]
+      simp only [ex, ey, bind_ok, hb, hx, hy, true_and]
     · have ey : checkConvert word k y = .cannot := hcy.2.mpr hy
-      simp [ex, ey, Verdict.bind, hy]
+      simp [ex, ey, bind_ok, bind_cannot, hy]
   · have ex : checkConvert word k x = .cannot := hcx.2.mpr hx
-    simp [ex, Verdict.bind, hx]
+    simp [ex, bind_cannot, hx]
 
 example : declBinTyped false 4 .int32 .add 2147483647 1 = .overflow ∧ declBinTyped false 4 .uint8 .sub 255 5 = .ok 250
     ∧ declBinTyped false 4 .uint8 .add 256 0 = .cannot ∧ declBinTyped false 4 .int32 .rem 7 0 = .divzero := by decide
